@@ -13,12 +13,12 @@
 (***************************************************************************)
 EXTENDS Integers, Sequences, FiniteSets, TLC, Json
 
-Kind  == {"ref", "rref", "ptr", "shared", "cshared", "vptr", "vshared"}
+Kind  == {"ref", "rref", "ptr", "shared", "cshared", "vptr", "vshared", "cvptr", "cvshared"}
 Shape == {"same", "single", "second", "virtual", "two"}
 Pos   == {0, 1, 2}
 Cat   == {"val_l", "val_r", "lref", "clref", "rref", "moveonly"}
 
-SharedKinds == {"shared", "cshared", "vshared"}
+SharedKinds == {"shared", "cshared", "vshared", "cvshared"}
 RefCats == {"lref", "clref", "rref"}
 
 (* the report: [self_ok, oid_ok, owner_ok, nv_ok, copies, moves, ret_ok] *)
